@@ -287,8 +287,11 @@ namespace
                 {
                     auto value = res->data_try<d_boolean, bool>();
                     if (value.has_value())
-                    {
-                        return result::ok;
+                    { // only a condition that holds ends the wait
+                        if (*value)
+                        {
+                            return result::ok;
+                        }
                     }
                     else
                     {
